@@ -79,12 +79,12 @@ def place(a_lines, b_lines, gap, direction):
         else:
             ta[ax] = 9000000 - ba[ax][1] if gap > 500000 else 0
             tb[ax] = (ba[ax][0] + ta[ax]) - gap - bb[ax][1]
-    a2 = C.translate(a_lines, *ta)
-    b2 = C.translate(b_lines, *tb)
-    for (lo, hi) in bbox(a2) + bbox(b2):
-        if lo < -999999 or hi > 9999999:
-            return None
-    return a2, b2
+    # (the field limits are checked on the translated bounding boxes before any line is rewritten)
+    for box, t in ((ba, ta), (bb, tb)):
+        for ax in range(3):
+            if box[ax][0] + t[ax] < -999999 or box[ax][1] + t[ax] > 9999999:
+                return None
+    return C.translate(a_lines, *ta), C.translate(b_lines, *tb)
 
 
 def fresh_chains(lines, used):
